@@ -37,7 +37,7 @@ func init() {
 		Enumerate: enumerate,
 		Exec:      exec,
 		Required: []string{"fwd-plain-args", "fwd-plain-noargs", "fwd-special-args", "fwd-special-noargs", "fwd-ref", "fwd-var", "compiled", "re-evaluated",
-			"redefinition-seen-by-old-caller", "early-failure-then-value", "mutual-recursion", "self-recursion", "macro-use",
+			"redefinition-seen-by-old-caller", "early-failure-then-value", "mutual-recursion", "self-recursion", "self-recursion-guard-clause", "macro-use",
 			"macro-expands-to-later-function", "defvar-read", "global-state", "closure", "closure-state", "code-as-data", "function-designator", "two-callers"},
 		Bound:    bound,
 		Selftest: selftest,
@@ -59,9 +59,9 @@ func bound(tier string) string {
 		fs = append(fs, fmt.Sprintf("%s=%d", f, n))
 	}
 	sort.Strings(fs)
-	shapes := "call graphs chain2, chain3, mutual2, mutual3, fan3, join3, recursive-leaf (<= 3 definitions) x 15 of 19 call contexts x 0..3 traced arguments x required/&optional parameters"
+	shapes := "call graphs chain2, chain3, mutual2, mutual3, fan3, join3, recursive-leaf, self1, self2, selfjoin3, mutual2s (self / back call in the context itself, guard-clause termination) (<= 3 definitions) x 15 of 19 call contexts x 0..3 traced arguments x required/&optional parameters"
 	if tier == engine.Thorough {
-		shapes = "call graphs chain2..4, mutual2, mutual3, fan3, join3, diamond4, recursive-leaf (<= 4 definitions, all 24 orders) x all 19 call contexts x 0..3 traced arguments x " +
+		shapes = "call graphs chain2..4, mutual2, mutual3, fan3, join3, diamond4, recursive-leaf, self1, self2, selfjoin3, mutual2s, mutual3s (self / back call in the context itself, guard-clause termination) (<= 4 definitions, all 24 orders) x all 19 call contexts x 0..3 traced arguments x " +
 			"required/&optional parameters, plus chain3 with every ordered pair of distinct contexts on its two edges"
 	}
 	return fmt.Sprintf("%d programs (%s): %s; macro / defvar / closure / code-as-data programs; every admissible order of the definitions; %d modes + one redefinition mode pair per "+
